@@ -285,14 +285,15 @@ func (h *Range) Unmarshal(v base.HeaderValue) error {
 		return fmt.Errorf("value provided multiple times (%v)", v)
 	}
 
-	kvs, err := keyValParse(v[0], ';')
+	keys, kvs, err := keyValParseOrdered(v[0], ';')
 	if err != nil {
 		return err
 	}
 
 	specFound := false
 
-	for k, v := range kvs {
+	for _, k := range keys {
+		v := kvs[k]
 		switch k {
 		case "smpte":
 			s := &RangeSMPTE{}
